@@ -328,6 +328,11 @@ def run(ctx):
         rule4_delete(ctx, fl)
         rule5_terminations(ctx, fl)
         from . import c10
+        with ctx.shared({'C10.3': 'C11.8'}, floor=2,
+                        doc='a new thread starts with an empty thread-specific tree on both creation paths (shared with C10.3): a recycled '
+                            'record that keeps its previous owner\'s tree makes the exit walk call destructors on values this thread never '
+                            'stored'):
+            c10.rule3_follows(ctx, fl)
         with ctx.shared({'C10.2': 'C11.6'}, floor=4,
                         doc='the exit walk visits the slots set/get use (shared with C10.2): both descend by the same bit groups of the '
                             'key, and a fresh leaf has all 16 value slots cleared - otherwise a destructor runs on a value the exiting '
